@@ -53,3 +53,9 @@ package xpub
 //@   before select#1 assert selwaits(p.closeq)
 //@
 // ---- end generated wake-on-close contracts ----
+// ---- generated default contracts (tools/gen_default_contracts.py) ----
+//@ func NewProtocol
+//@   ensures cast("*socket", result).closed == false
+//@   ensures cast("*socket", result).sendQLen == 128
+//@
+// ---- end generated default contracts ----
